@@ -15,6 +15,7 @@ class TIDMappingContext(AbstractContext):
         super().__init__()
         self.tid_original = []
         self.tid_remap = []
+        self.remap_step = remap_step
 
         # Let's initialize the tid_remap list
         for rid in range(remap_size):
@@ -44,6 +45,9 @@ def map_tid_to_range(event: TraceEvent, context: AbstractContext) -> list[TraceE
     if tid not in context.tid_original:
         # append tid to the tid_orginal list
         context.tid_original.append(tid)
+        if len(context.tid_original) > len(context.tid_remap):
+            # more distinct tids than pre-configured slots: continue the range
+            context.tid_remap.append(context.tid_remap[-1] + context.remap_step)
 
     aiulog.log(aiulog.TRACE, "tid_original[]", len(context.tid_original), ":", context.tid_original)
 
